@@ -10,6 +10,7 @@ import (
 	"time"
 
 	"github.com/miekg/dns"
+	mcache "github.com/semihalev/sdns/middleware/cache"
 	"github.com/semihalev/sdns/server"
 
 	"verifsim/kit"
@@ -106,6 +107,7 @@ var c05Names = []string{
 	"ent.x.sec.test.",    // 13 below an empty non-terminal
 	"sec.test.",          // 14 apex (SOA/NS/DNSKEY/DS)
 	"two.sec.test.",      // 15 two A records
+	"back.plain.test.",   // 16 CNAME -> www.sec.test. (insecure alias, secure target)
 }
 
 func c05Spec(sc *C05Scenario) *world.Spec {
@@ -118,7 +120,7 @@ func c05Spec(sc *C05Scenario) *world.Spec {
 					"far.sec.test. 200 IN CNAME www.plain.test.", "*.w.sec.test. 60 IN A 192.0.2.9", "a.ent.x.sec.test. 300 IN A 192.0.2.7",
 					"two.sec.test. 90 IN A 192.0.2.21", "two.sec.test. 90 IN A 192.0.2.22",
 					fmt.Sprintf("txt.sec.test. 300 IN TXT \"%s\" \"%s\" \"%s\"", strings.Repeat("t", 200), strings.Repeat("u", 200), strings.Repeat("v", 200))}},
-			{Name: "plain.test.", NSNames: []string{"ns.plain.test."}, Addrs: []string{"192.0.9.3"}, Records: []string{"www.plain.test. 150 IN A 192.0.2.2"}},
+			{Name: "plain.test.", NSNames: []string{"ns.plain.test."}, Addrs: []string{"192.0.9.3"}, Records: []string{"www.plain.test. 150 IN A 192.0.2.2", "back.plain.test. 100 IN CNAME www.sec.test."}},
 			{Name: "dead.test.", NSNames: []string{"ns.dead.test."}, Addrs: []string{"192.0.9.4"}},
 			{Name: "blocked.test.", NSNames: []string{"ns.blocked.test."}, Addrs: []string{"192.0.9.5"}, Records: []string{"ads.blocked.test. 300 IN A 192.0.2.66"}},
 		},
@@ -147,6 +149,24 @@ func genC05(r *kit.RNG) *C05Scenario {
 	sc.RFC8198Off = r.Chance(0.3)
 	pool := []int{r.Intn(len(c05Names)), r.Intn(len(c05Names)), r.Intn(len(c05Names)), r.Intn(len(c05Names))}
 	types := []uint16{dns.TypeA, dns.TypeA, dns.TypeA, dns.TypeAAAA, dns.TypeTXT, dns.TypeMX, dns.TypeNS, dns.TypeSOA, dns.TypeDS, dns.TypeDNSKEY, dns.TypeCNAME, dns.TypePTR, dns.TypeANY, dns.TypeRRSIG}
+	if r.Chance(0.35) {
+		// alias recipe: the target and the alias get cached, then the alias is asked again
+		// with varying negotiation so that the reply is composed from cached pieces
+		alias := kit.Pick(r, []int{1, 2, 16})
+		target := map[int]int{1: 0, 2: 7, 16: 0}[alias]
+		qt := kit.Pick(r, []uint16{dns.TypeA, dns.TypeA, dns.TypeAAAA, dns.TypeTXT})
+		seq := []int{target, alias, alias, alias}
+		if r.Chance(0.5) {
+			seq = []int{alias, alias, target, alias}
+		}
+		for _, nm := range seq {
+			op := C05Op{GapMs: kit.Pick(r, []int{5, 50, 400, 2000}), Client: r.Intn(3), Name: nm, Type: qt, AD: r.Chance(0.5), CD: r.Chance(0.15)}
+			if r.Chance(0.7) {
+				op.EDNS, op.Size, op.DO = true, kit.Pick(r, []uint16{512, 1232, 4096}), r.Chance(0.5)
+			}
+			sc.Ops = append(sc.Ops, op)
+		}
+	}
 	n := r.Range(6, 30)
 	for i := 0; i < n; i++ {
 		op := C05Op{GapMs: kit.Pick(r, []int{1, 5, 50, 400, 2000, 7000, 31000, 70000}), Client: r.Intn(3), Name: kit.Pick(r, pool), Type: kit.Pick(r, types)}
@@ -270,6 +290,14 @@ func c05World(sc *C05Scenario, wire bool, tr *kit.Trace, res *kit.Result) (repli
 		start := 6 * time.Second
 		if wire {
 			inlineBefore := server.VerifUDPCounters()["inline_served"]
+			wireBefore := mcache.VerifWireCounters()
+			defer func() {
+				for k, v := range mcache.VerifWireCounters() {
+					if d := v - wireBefore[k]; d > 0 {
+						res.Probes["wire-ladder:"+k] += int(d)
+					}
+				}
+			}()
 			g, err := world.NewIng(spec, world.IngSpec{Workers: 64, Queue: 64, Sockets: 1, Spare: 64} /* never queue: a reply delayed behind a busy pool has older TTLs */, 5, tr)
 			if err != nil {
 				res.Fail("C05/harness", "listener: %v", err)
@@ -423,6 +451,13 @@ func runC05(sc *C05Scenario, tr *kit.Trace) *kit.Result {
 		}
 		tr.Add("op %d c%d %s/%s edns=%v do=%v opts=%d -> wire %dB rcode=%s, decoded %dB", i, op.Client, c05Names[op.Name%len(c05Names)], dns.TypeToString[op.Type], op.EDNS, op.DO, len(op.Opts), len(wire[i]), rc, len(dec[i]))
 		tr.Shape(fmt.Sprintf("%d:%d:%v:%v:%d:%s", op.Name, op.Type, op.EDNS, op.DO, len(op.Opts), rc))
+		if a != b && sc.Prefetch > 0 && c05NoTTL(a) == c05NoTTL(b) && strings.Contains(a, "\tCNAME\t") {
+			// the documented divergence of the wire chase composer: hops served through it do not
+			// tick the prefetch machinery, the Msg-path chase does (entry_wire_chase.go)
+			res.Fail("C05/prefetch-divergence-on-wire-chase", "op %d (%s/%s): with prefetch=%d%% the alias reply composed on the wire path and the one composed on the decoded path differ in TTLs only — the decoded chase refreshed a hop the wire chase did not\n--- wire path:\n%s--- decoded path:\n%s",
+				i, c05Names[op.Name%len(c05Names)], dns.TypeToString[op.Type], sc.Prefetch, a, b)
+			return res
+		}
 		if a != b {
 			res.Fail("C05/paths-differ", "op %d (%s/%s class %d from client %d, edns=%v ver=%d size=%d do=%v opts=%v rd=%v cd=%v ad=%v): the wire ingress and the decoded ingress answered differently after identical histories\n--- wire path:\n%s--- decoded path:\n%s",
 				i, c05Names[op.Name%len(c05Names)], dns.TypeToString[op.Type], op.Class, op.Client, op.EDNS, op.Ver, op.Size, op.DO, op.Opts, !op.NoRD, op.CD, op.AD, a, b)
@@ -477,4 +512,17 @@ func shrinkC05(sc any, fails func(any) bool) any {
 		cur = &c
 	}
 	return cur
+}
+
+// c05NoTTL blanks the TTL column of every record line of a normalised reply.
+func c05NoTTL(norm string) string {
+	lines := strings.Split(norm, "\n")
+	for i, l := range lines {
+		f := strings.Split(l, "\t")
+		if len(f) > 3 && (strings.HasPrefix(l, "AN ") || strings.HasPrefix(l, "NS ") || strings.HasPrefix(l, "AR ")) {
+			f[1] = "TTL"
+			lines[i] = strings.Join(f, "\t")
+		}
+	}
+	return strings.Join(lines, "\n")
 }
